@@ -66,6 +66,16 @@ pub fn eval(p: &Parameters, q: &Joints) -> Result<(Vec<(String, String)>, usize)
     }
     let mut fails = Vec::new();
     let robot = OPWKinematics::new(*p);
+    // a sibling robot (other J1 sign, longer upper arm, shifted J4 zero) living on the same thread; it is asked for the
+    // bit-identical pose *before* the robot under test sees that pose for the first time, and once more later on
+    let sibling = {
+        let mut sp = *p;
+        sp.sign_corrections[0] = -sp.sign_corrections[0];
+        sp.c2 *= 1.1;
+        sp.offsets[3] += 0.3;
+        OPWKinematics::new(sp)
+    };
+    let _ = sibling.inverse(&to_na(&pose));
     let sols = robot.inverse(&to_na(&pose));
     if !contains(&sols, q, MATCH_TOL) {
         fails.push((
@@ -82,6 +92,19 @@ pub fn eval(p: &Parameters, q: &Joints) -> Result<(Vec<(String, String)>, usize)
             fails.push((
                 "C02/depends-on-quaternion-sign".to_string(),
                 format!("{} answers for the pose, {} for the same pose with the quaternion negated (q present: {})", sols.len(), sols_neg.len(), contains(&sols_neg, q, MATCH_TOL)),
+            ));
+        }
+    }
+    // history: the sibling is asked again, then the robot under test: its answer must not have changed (nothing one
+    // instance computes may reach another)
+    {
+        let _ = sibling.inverse(&to_na(&pose));
+        let after = robot.inverse(&to_na(&pose));
+        let same = after.len() == sols.len() && after.iter().zip(sols.iter()).all(|(a, b)| (0..6).all(|i| a[i].to_bits() == b[i].to_bits()));
+        if !same {
+            fails.push((
+                "C02/depends-on-other-robots-history".to_string(),
+                format!("after another robot solved the same pose the answers are {after:?}, before {sols:?}"),
             ));
         }
     }
@@ -205,7 +228,7 @@ pub fn run(ctx: &Ctx) -> Report {
     rep.rule = "robots R (dof 6) x theta lattice; points whose pose has any arm branch within the oracle margins \
                 (|sin t5|<=1e-3, elbow/reach boundary 1e-6 in cos, shoulder 1 mm) are skipped_precondition; oracle: \
                 q in inverse(FK_ref(q)), |answers| = 2 x reachable arm branches (independent arm IK), twins present, \
-                no duplicates, same size for the pose of every answer and for the same pose with the quaternion negated; threshold sweep: robots with a1 / a2 / b / c4 = +- each ladder magnitude x 4 postures; signature = number of answers".into();
+                no duplicates, same size for the pose of every answer and for the same pose with the quaternion negated, answers bit-identical after a sibling robot solved the same pose on the same thread; threshold sweep: robots with a1 / a2 / b / c4 = +- each ladder magnitude x 4 postures; signature = number of answers".into();
     rep.set("axes", json!({"robots": robots.len(), "theta_axis_sizes": ax.iter().map(|a| a.len()).collect::<Vec<_>>() }));
     rep.set("tolerances", json!({"match_mod_2pi": MATCH_TOL, "duplicate": DUP_TOL, "sin_margin": SIN_MARGIN}));
     rep.assumptions.push("lattice-relative: values outside the printed axes are not covered".into());
